@@ -23,7 +23,22 @@ type Env struct {
 	siblingScope bool // callee is a closure of the same lexical scope (called through a variable): captured variables are shared
 	pos         bool // positive position of a clause that is being asserted: unbound disjuncts count as false
 	negated     bool // directly under a `!`: an exists here is a universal statement, boundary witnesses would only add work
+	sk          *skCtx // loop-invariant clause under evaluation: existentials in positive position get explicit Skolem functions
+	skPos       bool   // still in positive position of that clause (&&, ||, RHS of ==>, forall bodies, macro bodies)
+	skBound     []Term // universally bound variables in scope (arguments of the Skolem function)
 	pkg         *types.Package
+}
+
+// skCtx: explicit skolemisation of the existentials of a loop invariant. At the loop head (assuming) `exists k. P(k)` in
+// positive position is assumed as P(sk(j...)) for a Skolem function sk named after the clause (sound: skolemisation of an
+// assumption); at the back edge and at the entering edges (goal) the very same term sk(j...) is added to the existential
+// as one more ground witness (an equivalent formula). This hands the solver the old witness when it has to re-establish
+// a forall-exists invariant ("every configured entry is listed") after an append - such obligations were decided by
+// model-based instantiation only and flipped to `unknown` with unrelated changes.
+type skCtx struct {
+	id       string
+	assuming bool
+	n        int
 }
 
 func (g *Gen) fnEnv(extra map[string]Term) *Env {
@@ -461,6 +476,10 @@ func (g *Gen) eval(n *Node, env *Env) (Term, error) {
 			env = env.clone()
 			env.pos = false
 		}
+		if env.skPos {
+			env = env.clone()
+			env.skPos = false
+		}
 		if n.Val == "!" && n.Args[0].Kind == "call" && n.Args[0].Val == "exists" {
 			env = env.clone()
 			env.negated = true
@@ -584,6 +603,26 @@ func (g *Gen) eval(n *Node, env *Env) (Term, error) {
 }
 
 func (g *Gen) evalBin(n *Node, env *Env) (Term, error) {
+	if env.skPos {
+		switch n.Val {
+		case "||", "&&":
+		case "==>":
+			l := env.clone()
+			l.skPos = false
+			a, err := g.eval(n.Args[0], l)
+			if err != nil {
+				return Term{}, err
+			}
+			b, err := g.eval(n.Args[1], env)
+			if err != nil {
+				return Term{}, err
+			}
+			return Term{S: imp(a.S, b.S), Sort: "Bool"}, nil
+		default:
+			env = env.clone()
+			env.skPos = false
+		}
+	}
 	envL, envR := env, env
 	if env.pos {
 		switch n.Val {
@@ -688,6 +727,15 @@ func (g *Gen) evalCall(n *Node, env *Env) (Term, error) {
 	}
 	args := n.Args[1:]
 	name := n.Val
+	if env.skPos {
+		_, isMacro := g.P.cs.Macros[name]
+		switch {
+		case isMacro, name == "forall", name == "exists", name == "forallI", name == "forallS", name == "forallB":
+		default:
+			env = env.clone()
+			env.skPos = false
+		}
+	}
 	arg := func(i int) (Term, error) {
 		if i >= len(args) {
 			return Term{}, fmt.Errorf("%s: missing argument %d", name, i)
@@ -746,6 +794,43 @@ func (g *Gen) evalCall(n *Node, env *Env) (Term, error) {
 		q := freshBound(env, args[0].Val)
 		e2 := env.clone()
 		e2.names[args[0].Val] = Term{S: q, Sort: "Int", T: types.Typ[types.Int]}
+		if env.skPos && env.sk != nil {
+			if name == "forall" {
+				e2.skBound = append(append([]Term{}, env.skBound...), Term{S: q, Sort: "Int"})
+			} else if !env.negated {
+				// exists in positive position of a loop invariant: explicit Skolem function
+				env.sk.n++
+				fname := fmt.Sprintf("sk!%s!%d", env.sk.id, env.sk.n)
+				var sorts, as []string
+				for _, b := range env.skBound {
+					sorts = append(sorts, b.Sort)
+					as = append(as, b.S)
+				}
+				g.declFun(fname, "("+strings.Join(sorts, " ")+") Int")
+				app := fname
+				if len(as) > 0 {
+					app = "(" + fname + " " + strings.Join(as, " ") + ")"
+				}
+				e3 := env.clone()
+				e3.skPos = false
+				e3.names[args[0].Val] = Term{S: app, Sort: "Int", T: types.Typ[types.Int]}
+				if pw, err := g.evalBool(args[3], e3); err == nil {
+					inst := fmt.Sprintf("(and (<= %s %s) (< %s %s) %s)", lo.S, app, app, hi.S, pw)
+					if env.sk.assuming {
+						return Term{S: inst, Sort: "Bool"}, nil
+					}
+					e2.skPos = false
+					pq, err := g.evalBool(args[3], e2)
+					if err != nil {
+						return Term{}, err
+					}
+					ex := fmt.Sprintf("(exists ((%s Int)) (and (and (<= %s %s) (< %s %s)) %s))", q, lo.S, q, q, hi.S, pq)
+					ws := g.existsWitnesses(args[0].Val, q, lo.S, hi.S, pq, args[3], e3)
+					return Term{S: "(or " + ex + " " + inst + " " + strings.Join(ws, " ") + ")", Sort: "Bool"}, nil
+				}
+			}
+			e2.skPos = name == "forall"
+		}
 		p, err := g.evalBool(args[3], e2)
 		if err != nil {
 			return Term{}, err
@@ -791,6 +876,13 @@ func (g *Gen) evalCall(n *Node, env *Env) (Term, error) {
 		q := freshBound(env, args[0].Val)
 		e2 := env.clone()
 		e2.names[args[0].Val] = Term{S: q, Sort: srt}
+		if env.skPos && env.sk != nil {
+			if strings.HasPrefix(name, "forall") {
+				e2.skBound = append(append([]Term{}, env.skBound...), Term{S: q, Sort: srt})
+			} else {
+				e2.skPos = false
+			}
+		}
 		p, err := g.evalBool(args[1], e2)
 		if err != nil {
 			return Term{}, err
